@@ -267,6 +267,14 @@ def run(ctx):
                 if any(x is enq[0] for x in ast.walk(lp)):
                     ok = False
                     why = 'enqueue inside a loop'
+        # every call of the producer enqueues: the enqueue is not under a condition and no return precedes it
+        if ok and enq:
+            from . import common as _cm
+            gs = _cm.guards_of(m.node, lambda x: x is enq[0])
+            conds = [c_ for st_, cs in gs for c_ in cs]
+            if conds:
+                ok = False
+                why = 'enqueue only when `%s`' % ' and '.join(('' if p_ else 'not ') + norm(t_) for t_, p_ in conds)
         direct = [n for n in ast.walk(m.node) if isinstance(n, ast.Call) and isinstance(n.func, ast.Attribute) and 'wrapped' in norm(n.func.value)
                   and not any(n is x for l in lam for x in ast.walk(l))]
         ok = ok and not direct
@@ -342,6 +350,21 @@ def run(ctx):
     # no early return between them
     rets = [n for n in walk_own(close.node) if isinstance(n, ast.Return)]
     okf = okf and not rets
+    # the flusher's sleep is interruptible by close(): every event it waits on is set by close(), and it does not sleep otherwise
+    set_by_close = {self_attr(n.func.value) for n in ast.walk(close.node) if isinstance(n, ast.Call) and isinstance(n.func, ast.Attribute) and
+                    n.func.attr == 'set' and self_attr(n.func.value)}
+    waits = [n for n in ast.walk(target.node) if isinstance(n, ast.Call) and isinstance(n.func, ast.Attribute) and n.func.attr == 'wait' and
+             self_attr(n.func.value)]
+    sleeps = [n for n in ast.walk(target.node) if isinstance(n, ast.Call) and norm(n.func).split('.')[-1] == 'sleep']
+    deaf = [n for n in waits if self_attr(n.func.value) not in set_by_close] + sleeps
+    cf.instance('flusher waits only on events that close() sets (%s)' % sorted({self_attr(n.func.value) for n in waits}), target.qualname,
+                bool(waits) and not deaf)
+    cf.evaluations += len(waits) + len(sleeps)
+    for n in deaf[:1]:
+        res.add(Finding('C12', 'C12.f', 'R-ORDER', target.file, target.qualname, n.lineno, norm(n),
+                        'the flusher sleeps in `%s`, which close() does not interrupt (close sets %s): with a flush interval longer than the close '
+                        'timeout, close() returns while operations are still buffered and the wrapped cassette is closed under them' % (
+                            norm(n), sorted(x for x in set_by_close if x))))
     cf.instance('close(): stop signal (line %s) -> join (%s) -> wrapped close (%s)' % (ln.get('signal'), ln.get('join'), ln.get('wrapped-close')), close.qualname, okf)
     cf.evaluations += 1
     if not okf:
